@@ -76,7 +76,8 @@ def render(rng, ab):
         name = t
         if t == "buf" and rng.random() < 0.5:
             name = "buff"
-        args = ("," + sp(0.7)).join(ops)
+        # white space on either side of every comma, chosen per comma
+        args = ops[0] + "".join(sp(0.25) + "," + sp(0.7) + o for o in ops[1:])
         lines_g.append(f"{g}{sp(0.8)}={sp(0.8)}{kw(name)}({sp(0.2)}{args}{sp(0.2)})")
     lines_d = [f"{q}{sp(0.8)}={sp(0.8)}{kw('DFF')}({sp(0.2)}{d}{sp(0.2)})" for q, d in ab["dffs"]]
     mode = rng.choice(("canonical", "outputs_first", "shuffled", "shuffled"))
